@@ -510,6 +510,8 @@ class IntEnc:
             if fx.is_const():
                 fx, lx, hx, fy, ly, hy = fy, ly, hy, fx, lx, hx
             K = fy.c
+            if K == 0:
+                return Lin(0), 0, 0
             B = self.as_mask(fx, w)
             if B is not None:
                 return B.scale(K), 0, K
